@@ -37,6 +37,39 @@ func runC03(cfg *config) *Report {
 				}
 			}
 		}
+		if i%2 == 0 {
+			// every printable character in the wide text classes (names, user fields, descriptions), chosen from the
+			// printable range itself and NOT filtered through the library's validators: whether the stream is
+			// conformant is decided by the Spec reader below
+			for _, rec := range writerOrder(f) {
+				goName := strings.TrimPrefix(fmt.Sprintf("%T", rec), "*imagecashletter.")
+				L := layoutOf(goName)
+				if L == nil {
+					continue
+				}
+				infos := fieldInfos(L)
+				for _, w := range L.Write {
+					info := infos[w.Src]
+					if kindOfConv(w.Conv) != 'S' || w.Conv != "alpha" || w.Width < 3 || fixedFields[w.Src] || info == nil || info.class == nil || r.Intn(4) != 0 {
+						continue
+					}
+					members := 0
+					for b := 0x21; b < 0x7f; b++ {
+						if info.class[b] {
+							members++
+						}
+					}
+					old := getField(rec, w.Src, 'S')
+					if members < 85 || len(old.S) < 3 {
+						continue
+					}
+					nv := append([]byte{}, old.S...)
+					nv[1+r.Intn(len(nv)-2)] = byte(0x21 + r.Intn(0x7f-0x21))
+					setField(rec, w.Src, FV{K: 'S', S: nv})
+					rep.count("printable-character-unfiltered")
+				}
+			}
+		}
 		d := dumpFile(f)
 		encs := allEnc
 		if i%4 == 3 {
@@ -98,6 +131,11 @@ func runC03(cfg *config) *Report {
 				Replay: map[string]any{"bytes": streams[i], "enc": c.enc.String(), "implementation": impl, "model": gen}, NoInput: true})
 		}
 		sp := strings.SplitN(spec, " # ", 2)
+		if sp[0] != "ok" && rs.rerr != "ok" {
+			// not conformant by the Spec tables either (an unfiltered character outside the field's class)
+			rep.count("not-conformant-by-spec")
+			continue
+		}
 		if rs.rerr != "ok" {
 			rep.violate(Violation{Key: "C03:rejected:" + c.enc.String() + ":" + rs.rerr, What: "Reader rejected a conformant, well-nested stream",
 				Replay: map[string]any{"bytes": streams[i], "enc": c.enc.String(), "error": rs.rerr, "assembled_from": c.dump}})
